@@ -36,7 +36,10 @@ K6 = [
     for n in (1, 2, 3) for o in ("uv", "vu", "uw", "wu", "vw", "wv")
 ]
 
-K17 = [{"file": "k17_hilbert.rs", "harness": "k17_shift_then_unshift_is_identity", "kind": "full-domain",
+K17 = [{"file": "k6_hilbert.rs", "harness": "k6_ij_to_quaternary_equiv", "kind": "full-domain",
+        "what": "real ij_to_quaternary (the one-level cell-location decision: thresholds a, b, c against 1.0 under the four flip states) == "
+                "frozen copy of the reference release for every f64 pair with |x|,|y| <= 1e12 and every flip state (complete for one level)"},
+       {"file": "k17_hilbert.rs", "harness": "k17_shift_then_unshift_is_identity", "kind": "full-domain",
         "what": "real shift_digits: for every parent/child digit pair x 4 flip states x invert_j x both patterns, shifting with P and "
                 "then with reverse_pattern(P) restores the pair (complete: all 256 cases symbolic, no loop over inputs)"}] + [
     {"file": "k17_hilbert.rs", "harness": "k17_round_trip_n%d_%s" % (n, o), "kind": "bounded",
@@ -117,17 +120,18 @@ PROPS = {
             "order / multiplicity independence: proved that the working list after the sort is the unique strictly sorted enumeration "
             "of the input SET; that the rest of compact() is a deterministic function of that list (it never reads `cells` again) is "
             "by determinism of safe Rust, not a proof obligation",
-            "no-duplicates is proved for non-overlapping inputs only (invariant: the working list stays an antichain); for overlapping "
-            "inputs containing a base cell and its own quintants it is false (known finding F2)",
+            "no-duplicates is proved for EVERY list of valid cells (invariant: the working list stays strictly ordered by the scan key; "
+            "a parent's key lies strictly between its first and last child's) - after the fix: commit c5e0418, which repaired the "
+            "former findings F1/F2 (base cells / world cell sorted away from their children)",
         ],
         "search_ops": ["compact_cover", "compact_total"],
         "level_text": "Unbounded proof (Verus/Z3) on the real compact(), fixed point and scan loops closed by invariants over an abstract "
                       "covered-set: for every list of valid cells the result is Ok, consists of canonical IDs no finer than the inputs, and "
                       "covers exactly the same cells at every resolution at least as fine as all inputs (each merge is shown to replace "
-                      "exactly the complete set of children of the parent it inserts); for non-overlapping inputs the result has no "
-                      "duplicates; the working list after dedup+sort depends only on the input set.",
+                      "exactly the complete set of children of the parent it inserts); the result has no duplicates and is in scan "
+                      "order; the working list after dedup+sort is the unique scan-ordered enumeration of the input set.",
         "level_note": "std HashSet/sort under assumed contracts; callee contracts (get_resolution, is_first_child, get_stride, "
-                      "cell_to_parent) verified in the same unit; F2 is replayed on the real code each run as a known finding.",
+                      "cell_to_parent, scan_key) verified in the same unit.",
         "technique": "Verus contract + loop invariants (abstract covered set, antichain) on the extracted real compact()",
     },
     "C09": {
@@ -208,17 +212,14 @@ PROPS = {
         "rlimit": 30,
         "level": "proof",
         "assumptions": STD_ASSUME + [
-            "proved on the class where the property holds in the pinned tree: non-overlapping inputs of valid cells containing no "
-            "resolution-0 cell and not the world cell (max_class). Inputs that mix base cells with other faces' quintants are a genuine "
-            "defect of a5-rs (known finding F1: numeric ID order interleaves base-cell IDs with other faces' quintant IDs) and are "
-            "replayed on the real code each run",
+            "proved for every non-overlapping list of valid cells (base cells and the world cell included) after fix: commit c5e0418; "
+            "on the pinned tree inputs mixing base cells with other faces' quintants were a genuine defect (former finding F1)",
             "std HashSet / sort_unstable under assumed contracts (rule R5), see C08",
             "decided: (maximal) the result contains no complete sibling group; (idempotent, as a set) a list on whose sorted "
             "enumeration the sibling test fails everywhere is returned as that enumeration, and a maximal list of valid cells is such "
             "a list in any order (thm_idempotent); (canonical) two maximal non-overlapping lists of valid cells covering the same "
             "cells are the same set (thm_canonical, mechanised: deepest-descendant argument), composed with compact()'s contract in "
-            "thm_compact_canonical. Idempotence is as a SET: the output list is not sorted when a merge produced a base cell, so "
-            "the second call may return the same cells in another order",
+            "thm_compact_canonical. The result is in scan order, so compacting it again returns the identical list",
         ],
         "bounded_ops": [
             {"op": "compact_max", "budget": 400, "what": "cross-check on the real code (bounded, not counted): result == unique normal "
@@ -229,7 +230,7 @@ PROPS = {
                       "(the ID interval a cell's descendants occupy; a parent's interval is tiled by its children's) plus 'in the "
                       "last pass the sibling test failed at every position' give: every complete sibling group would sit at "
                       "consecutive positions starting with a first child and would have been merged - so none survives.",
-        "level_note": "Class restriction and F1: see assumptions. The proof reuses the C20 interval lemmas (subtree == ID interval).",
+        "level_note": "The proof reuses the C20 interval lemmas (subtree == ID interval); scan_key() is extracted and verified.",
         "technique": "Verus loop invariants (interval order, failed-test prefix) on the extracted real compact() + tiling lemmas",
     },
     "C13": {
@@ -275,7 +276,13 @@ PROPS = {
             "PENTAGON constants use cos/sin/atan2)",
             "the digit-shift step is proved completely (full-domain harness k17_shift_then_unshift_is_identity)",
         ],
-        "search_ops": ["reference"],
+        "bounded_ops": [
+            {"op": "curve_roundtrip", "budget": 20000, "timeout": 900, "what": "deep curve levels (BOUNDED stand-in, beyond the depth Kani reaches): "
+             "for every depth 1..28 x 6 orientations, the digit-pattern families (all-0, all-3, alternating, one repeated digit, single "
+             "digit d*4^k and its neighbours) and random positions: position -> anchor -> nudged probe -> position is the identity on "
+             "the real code"},
+        ],
+        "search_ops": ["curve_roundtrip", "reference"],
         "level_text": "Kani/CBMC on the real f64 hilbert.rs: (complete) the digit-shift pass is undone by the reversed pattern for "
                       "every digit pair, flip state, invert_j and both patterns; (bounded) for every curve position of depth n <= 3 "
                       "(quick) / <= 5 (thorough) and each of the six orientations the lattice cell of position s is located back "
@@ -402,7 +409,7 @@ TRUSTED = {
     "compact": ["external_body err_msg", "external_body get_origins", "assume_specification usize::pow",
                 "assume_specification u64::pow", "assume_specification u64::saturating_pow",
                 "external_body U64Set", "external_body std_collect_set", "external_body std_set_into_vec",
-                "external_body std_sort_unstable"],
+                "external_body std_sort_by_scan_key"],
 }
 
 NOT_APPLICABLE = {
